@@ -149,6 +149,7 @@ class Analyzer:
         self.depth = 0
         self.moved = []
         self.thresholds = ()
+        self.iter_budget = int(os.environ.get('E4_ITER_BUDGET', '6000'))
         self.entry_atoms = set()
         self._changed = None
         self._joined = None
@@ -716,7 +717,7 @@ class Analyzer:
                 print("HEAD", bb, k[1], "visit", visits[k], "old", bnd(old), "new", bnd(s))
             self.thresholds = thr
             self.soft_widen = self.soft_widen_on and visits[k] <= 12
-            new = self.join(old, s, fr, widen_=(bb in heads and visits[k] > 3), head_first=(bb in heads and visits[k] == 1))
+            new = self.join(old, s, fr, widen_=(bb in heads and visits[k] > 3), head_first=(bb in heads and visits[k] == 1), at_head=(bb in heads))
             if self.state_leq(new, old) and self.state_leq(old, new):
                 return
             if self.trace and bb in heads:
@@ -737,7 +738,8 @@ class Analyzer:
             iters += 1
             if self.deadline is not None and time.time() > self.deadline:
                 raise Unmodelled("analysis time budget exceeded")
-            if iters > 1500:
+            self.max_iters_seen = max(getattr(self, 'max_iters_seen', 0), iters)
+            if iters > self.iter_budget:
                 mk = max(visits, key=lambda x: visits[x]) if visits else None
                 print("BUDGET in", key, "most visited", mk[0] if mk else None, visits[mk] if mk else None, "npart", len(instate))
                 if mk:
@@ -1088,7 +1090,7 @@ class Analyzer:
         if isinstance(a, Ref): return Unk("ref-join")
         return a
 
-    def join(self, A, B, fr, widen_=False, head_first=False):
+    def join(self, A, B, fr, widen_=False, head_first=False, at_head=False):
         A = A.copy(); B = B.copy()
         R = State()
         self._changed = [] if head_first else None
@@ -1161,6 +1163,16 @@ class Analyzer:
                 cands.append(ge(lin(s_), 0))
                 for L in lens:
                     cands.append(le(lin(s_), lin(L)))
+        if joined and not widen_ and at_head and not os.environ.get("E4_NOHULL"):
+            # (loop heads only: that is where a lost bound is fed back and amplified; elsewhere the cost is not worth it)
+            # interval hull of every freshly joined integer: the constraint-wise join keeps a bound only when it is written
+            # down on one side and entailed by the other, so `s == 0` joined with `s == t + 1, t <= 63` would lose `s <= 64`
+            live = self.live_atoms(R)
+            for s_ in joined:
+                if s_ not in live: continue
+                la, ha = PA.bounds(lin(s_)); lb, hb = PB.bounds(lin(s_))
+                if la is not None and lb is not None: R.C.add(ge(lin(s_), min(la, lb)))
+                if ha is not None and hb is not None and max(ha, hb) < (1 << 62): R.C.add(le(lin(s_), max(ha, hb)))
         for c in cands:
             if PA.entails(c) and PB.entails(c):
                 R.C.add(c)
